@@ -418,8 +418,14 @@ func (w *World) checkCtxBuffer(c *CallRec, prop string) {
 			rep.Server = m.Server
 		}
 	}
+	if c.Flags&FlEmpty != 0 {
+		rep = Msg{} // the handler returned the zero message
+	}
 	tmp := make([]byte, rep.size()+16)
 	l := rep.put(tmp)
+	if c.Flags&FlEmpty != 0 && (w.P.Codec == "pb" || w.P.Codec == "bytes") {
+		l = 0 // which these codecs encode in zero bytes
+	}
 	buf := c.ctxBuf[:cap(c.ctxBuf)]
 	from := l
 	if cap(buf) < l {
@@ -512,8 +518,20 @@ func genC19(r *simrt.Rand, tier string, idx uint64) *Plan {
 				op.Arg = uint32(1 + r.Intn(1500))
 			}
 			cp.Ops = append(cp.Ops, op)
+			if r.Chance(1, 6) {
+				cp.Ops = append(cp.Ops, Op{Kind: "ping"})
+			}
 		}
 		p.Clients = append(p.Clients, cp)
+	}
+	// other kinds of traffic after calls have been abandoned: pings and streams (requests that carry
+	// header flags) beside the unary siblings
+	if p.Codec != "bytes" && r.Chance(1, 2) {
+		for k := 0; k < 1+r.Intn(2); k++ {
+			genStreamClient(r, p, r.Intn(len(p.Conns)), &big)
+			cl := &p.Clients[len(p.Clients)-1]
+			cl.Ops = append([]Op{{Kind: "sleep", N: 50 + r.Intn(3000)}}, cl.Ops...)
+		}
 	}
 	p.Params = map[string]int{"settle": 1}
 	return p
@@ -527,6 +545,9 @@ func checkC19(w *World, run *simrt.Run) {
 		}
 		if c.Form != "ctx" {
 			// siblings of abandoned calls are unharmed
+			if c.Form == "ping" && c.Err != "" {
+				w.Violate("C19.sibling-harmed", "sibling-ping-failed", descCall(c))
+			}
 			if c.Form != "ping" && (c.Err != "" || !c.ReplyOK) {
 				w.Violate("C19.sibling-harmed", "sibling-call-harmed:"+c.Form, descCall(c)+": "+c.ReplyWhy)
 			}
@@ -583,6 +604,13 @@ func checkC19(w *World, run *simrt.Run) {
 			}
 		}
 		w.checkCtxBuffer(c, "C19")
+	}
+	for _, st := range w.Streams {
+		if st.ClientBlocked || st.CallBlocked != "" || !st.Opened || (st.ClientReadErr != "" && !st.ReadErrAtTeardown) || st.ClientWriteErr != "" || st.Foreign > 0 || st.BadPayload > 0 || !isPrefix(st.SGot, st.CSent) || !isPrefix(st.CGot, st.SSent) {
+			w.Violate("C19.sibling-harmed", "sibling-stream-harmed", fmt.Sprintf("stream %d: opened=%v (%q) blocked=%v/%q readErr=%q writeErr=%q foreign=%d damaged=%d handler got %v of %v, client got %v of %v", st.Idx, st.Opened, st.OpenErr, st.ClientBlocked, st.CallBlocked, st.ClientReadErr, st.ClientWriteErr, st.Foreign, st.BadPayload, st.SGot, st.CSent, st.CGot, st.SSent))
+		} else {
+			w.Probe("sibling-stream-ok")
+		}
 	}
 	for _, rb := range w.retainedBufs {
 		if Digest(rb.b) != rb.digest {
